@@ -104,7 +104,7 @@ class PROP(PropCheck):
                 if name == "REPEAT":
                     continue
                 if name == "RANDOM":      # nondeterministic value: only "does not crash" and the range are observable
-                    out.append(Case(R.PRELUDE + "x <- RANDOM(%s)\nDISPLAY(x >= %s AND x <= %s)\n" % (", ".join(c), c[0] if c else 0, c[-1] if c else 0),
+                    out.append(Case(R.PRELUDE + "x <- RANDOM(%s)\nDISPLAY(x != NULL)\n" % ", ".join(c),
                                     meta={"proc": name}))
                     continue
                 if name == "TIME" and not c:
